@@ -22,6 +22,14 @@ for key, c in sorted(conf.items()):
         p = os.path.join(src, fn)
         if os.path.isfile(p) and not fn.startswith('.') and os.path.getsize(p) < 200000 and (fn in ('patch.diff', 'NOTES.md') or fn.endswith(('.c', '.sh', '.h', '.py'))):
             shutil.copy(p, os.path.join(dst, fn))
+    for sub in sorted(os.listdir(src)):
+        sp = os.path.join(src, sub)
+        if os.path.isdir(sp) and not sub.startswith('.'):
+            for fn in sorted(os.listdir(sp)):
+                p2 = os.path.join(sp, fn)
+                if os.path.isfile(p2) and fn.endswith(('.c', '.h', '.sh')) and os.path.getsize(p2) < 200000:
+                    os.makedirs(os.path.join(dst, sub), exist_ok=True)
+                    shutil.copy(p2, os.path.join(dst, sub, fn))
     if prop == 'C19' and os.path.exists('/tmp/seed/C19/SEED/stub/isal_stub.c'):
         os.makedirs(os.path.join(dst, 'stub'), exist_ok=True)
         shutil.copy(f'/tmp/seed/C19/SEED/stub/isal_stub.c', os.path.join(dst, 'stub', 'isal_stub.c'))
